@@ -8,6 +8,7 @@ package main
 // qualification rules, honest runs complete) are evaluated on the real outputs.
 
 import (
+	"bytes"
 	"crypto/sha256"
 	"errors"
 	"fmt"
@@ -30,7 +31,7 @@ func c10SuiteEd(rng *kc.Rng) (*big.Int, vssSuite, string) {
 }
 
 // fault behaviours of one faulty party (deal phase / response phase / justification phase)
-var c11DealFaults = []string{"none", "absent", "badShare", "misdirect", "wrongThreshold", "wrongSid", "dupBundle", "conflict", "badCommit", "unknownHolder", "badShareAll", "unknownHolderMid", "wrongReshare"}
+var c11DealFaults = []string{"none", "absent", "badShare", "misdirect", "wrongThreshold", "wrongSid", "dupBundle", "conflict", "badCommit", "unknownHolder", "badShareAll", "unknownHolderMid", "wrongReshare", "nonScalarShare"}
 var c11RespFaults = []string{"none", "falseComplaint", "noResponse", "successStatus", "unknownDealer", "wrongSid", "dupBundle"}
 var c11JustFaults = []string{"none", "badJust", "noJust", "wrongSid", "dupBundle", "unknownHolder", "unsolicitedWrongSid", "unsolicitedBadShare"}
 
@@ -42,16 +43,16 @@ func (f c11Fault) String() string {
 func (f c11Fault) honest() bool { return f.deal == 0 && f.resp == 0 && f.just == 0 }
 
 type c11Spec struct {
-	mock      bool
-	n         int
-	t         int
-	fast      bool
-	skipIdx   bool
-	faults    map[int]c11Fault // position in the dealer list -> fault
-	rawLists  bool             // deliver duplicates/conflicts as they are (no de-duplication by the sender set)
-	reshare   string           // "" | same | overlap | disjoint | grow | shrink
-	newT      int
-	rfaults   map[int]c11Fault // faults in the resharing round (position in the old list)
+	mock                bool
+	n                   int
+	t                   int
+	fast                bool
+	skipIdx             bool
+	faults              map[int]c11Fault // position in the dealer list -> fault
+	rawLists            bool             // deliver duplicates/conflicts as they are (no de-duplication by the sender set)
+	reshare             string           // "" | same | overlap | disjoint | grow | shrink
+	newT                int
+	rfaults             map[int]c11Fault // faults in the resharing round (position in the old list)
 	leaveFalseComplaint bool
 }
 
@@ -78,15 +79,15 @@ func (s *c11Spec) String() string {
 }
 
 type c11Round struct {
-	c       *kc.Ctx
-	w       *dkgWorld
-	g       *dkgGroupSpec
-	nodes   []*dkgNode // every party of the round (old ∪ new), dealers first in old order
-	faults  map[*dkgNode]c11Fault
-	rng     *kc.Rng
-	desc    string
-	raw     bool
-	vkeys   []string
+	c             *kc.Ctx
+	w             *dkgWorld
+	g             *dkgGroupSpec
+	nodes         []*dkgNode // every party of the round (old ∪ new), dealers first in old order
+	faults        map[*dkgNode]c11Fault
+	rng           *kc.Rng
+	desc          string
+	raw           bool
+	vkeys         []string
 	targetLeaving bool // a false complaint is aimed at a dealer that leaves the group
 }
 
@@ -199,6 +200,19 @@ func (r *c11Round) run() {
 		case "misdirect":
 			v := victimOf(n)
 			setDeal(m, v, r.encryptShare(shareFor(v), n.party.pub))
+		case "nonScalarShare":
+			// an authentic ciphertext for one honest holder whose plaintext is not a scalar encoding (too short, or
+			// 0xff…ff): it opens, but gives no share - the holder has to complain like for any other invalid share
+			v := victimOf(n)
+			pt := bytes.Repeat([]byte{0xff}, w.suite.ScalarLen())
+			if r.rng.Bool() {
+				pt = r.rng.Bytes(w.suite.ScalarLen() - 1)
+			}
+			ct, err := ecies.Encrypt(w.suite, holders[v].pub, pt, sha256.New)
+			if err != nil {
+				panic(err)
+			}
+			setDeal(m, v, ct)
 		case "wrongThreshold":
 			if r.rng.Bool() {
 				m.Public = m.Public[:len(m.Public)-1]
